@@ -185,6 +185,10 @@ class Ctx:
         import hypothesis
         from hypothesis import HealthCheck, Phase, given, settings
         sd = self.derive(name) % (2 ** 63)
+        if not self.quick:
+            # the thorough tier multiplies every generated part (VERIF_SCALE, default 3); enumerated parts are
+            # complete already
+            max_examples = max(1, int(max_examples * float(os.environ.get('VERIF_SCALE', '3'))))
         st = settings(max_examples=max_examples, database=None, deadline=None,
                       derandomize=False, report_multiple_bugs=False,
                       suppress_health_check=list(HealthCheck),
@@ -223,6 +227,8 @@ class Ctx:
         from hypothesis import HealthCheck, Phase, settings
         from hypothesis.stateful import run_state_machine_as_test
         sd = self.derive(name) % (2 ** 63)
+        if not self.quick:
+            max_examples = max(1, int(max_examples * float(os.environ.get('VERIF_SCALE', '3'))))
         st = settings(max_examples=max_examples, stateful_step_count=steps,
                       database=None, deadline=None, derandomize=False,
                       report_multiple_bugs=False,
